@@ -128,7 +128,7 @@ ToCollField(F, obj, acc) ==
      ELSE IF src.t = "nil" THEN
         \* source nil: the loop is skipped altogether
         LET c1 == IF Q("staleOnNilSource") THEN c0
-                  ELSE IF islist THEN [c0 EXCEPT !.elems = <<>>, !.null = TRUE] ELSE [c0 EXCEPT !.mels = EmptyFn, !.null = TRUE]
+                  ELSE IF islist THEN [c0 EXCEPT !.elems = <<>>] ELSE [c0 EXCEPT !.mels = EmptyFn]
         IN [acc EXCEPT !.tf = SetAttr(@, F.attr, [c1 EXCEPT !.unk = FALSE])]
      ELSE IF F.kind \in {"objlist", "objmap"} /\ o.et.k # "obj" THEN [acc EXCEPT !.pn = TRUE]  \* unchecked assertion
      ELSE IF islist THEN
